@@ -99,24 +99,43 @@ def pageStep {σ : Type} (f : σ → Nat × V → σ × List Nat) (s : LoadSt V 
   let r := f s.cb e
   { kv := r.2.foldl kvRemove s.kv, cb := r.1, loaded := s.loaded ++ [e] }
 
+/-- the inner `for _, s := range res` as a whole: it stops with an error at the first record that cannot be
+    unmarshalled (`bad`), what came before it in the page has been processed -/
+def pageFold {σ : Type} (f : σ → Nat × V → σ × List Nat) (bad : Nat × V → Bool) :
+    LoadSt V σ → List (Nat × V) → LoadSt V σ × Bool
+  | s, [] => (s, false)
+  | s, e :: rest => if bad e then (s, true) else pageFold f bad (pageStep f s e) rest
+
 /-- the loop of `loadRegions`.  Result `(error?, state)`; `none` = out of fuel. -/
-def loadRegionsLoop {σ : Type} (f : σ → Nat × V → σ × List Nat) (minLimit : Nat) :
+def loadRegionsLoop {σ : Type} (f : σ → Nat × V → σ × List Nat) (bad : Nat × V → Bool) (minLimit : Nat) :
     Nat → Nat → Nat → List Bool → LoadSt V σ → Option (Bool × LoadSt V σ)
   | 0, _, _, _, _ => none
   | fuel + 1, next, limit, errs, s =>
     if errs.headD false then
       let limit := limit / 2
-      if limit ≥ minLimit then loadRegionsLoop f minLimit fuel next limit errs.tail s
+      if limit ≥ minLimit then loadRegionsLoop f bad minLimit fuel next limit errs.tail s
       else some (true, s)
     else
       let page := loadRange s.kv next maxU64 limit
-      let s' := page.foldl (pageStep f) s
-      if page.length < limit then some (false, s')
-      else loadRegionsLoop f minLimit fuel (nextAfter page next) limit errs.tail s'
+      let r := pageFold f bad s page
+      if r.2 then some (true, r.1)
+      else if page.length < limit then some (false, r.1)
+      else loadRegionsLoop f bad minLimit fuel (nextAfter page next) limit errs.tail r.1
 
-def loadRegions {σ : Type} (f : σ → Nat × V → σ × List Nat) (maxLimit minLimit : Nat) (kv : KV V) (init : σ)
-    (errs : List Bool) : Option (Bool × LoadSt V σ) :=
-  loadRegionsLoop f minLimit (kv.length + errs.length + 2) 0 maxLimit errs { kv := kv, cb := init, loaded := [] }
+def loadRegions {σ : Type} (f : σ → Nat × V → σ × List Nat) (bad : Nat × V → Bool) (maxLimit minLimit : Nat)
+    (kv : KV V) (init : σ) (errs : List Bool) : Option (Bool × LoadSt V σ) :=
+  loadRegionsLoop f bad minLimit (kv.length + errs.length + 2) 0 maxLimit errs { kv := kv, cb := init, loaded := [] }
+
+/-- `LoadRegionsOnce` with the region backend: nothing happens once a load has succeeded on this Storage
+    (`regionLoaded`); the flag is set only after `loadRegions` returned without error.  Result: new flag and the
+    outcome of the load (`none` = skipped). -/
+def loadRegionsOnce {σ : Type} (f : σ → Nat × V → σ × List Nat) (bad : Nat × V → Bool) (maxLimit minLimit : Nat)
+    (loadedBefore : Bool) (kv : KV V) (init : σ) (errs : List Bool) : Bool × Option (Option (Bool × LoadSt V σ)) :=
+  if loadedBefore then (true, none)
+  else
+    match loadRegions f bad maxLimit minLimit kv init errs with
+    | some (false, s) => (true, some (some (false, s)))
+    | r => (false, some r)
 
 /-- callback of `LoadRegions` in the tests and tools: collect only -/
 def plainCb : Unit → Nat × Meta → Unit × List Nat := fun _ _ => ((), [])
